@@ -504,11 +504,38 @@ def handleR (cfg ops : String) : String :=
       | _ => ["bad-case"]
   " ; ".intercalate (go s0 (fields ops ";"))
 
+open TraitsVerif.Model.RefLedger in
+/-- `U|b0 b1 …|i0 i1 …`: element validators by position (`n` none, `s` same, `c<ID>` converts to pool
+object ID, `r<Exc>` raises) and the pool ids of the tuple's items.  Prints the result and, for pool
+objects 1..9, the net reference change while the result is held. -/
+def handleU (behs items : String) : String :=
+  let bs := words behs
+  match (words items).mapM (·.toNat?) with
+  | none => "bad-case"
+  | some value =>
+    let ev : Nat → Id → Except Exc Id := fun i x =>
+      match bs[i]? with
+      | some b =>
+        if b.startsWith "c" then .ok ((b.drop 1).toString.toNat?.getD x)
+        else if b.startsWith "r" then .error (Exc.ofName (b.drop 1).toString)
+        else .ok x
+      | none => .ok x
+    if bs.length ≠ value.length then "err TraitError r=" ++ showIntList ((List.range 9).map (fun _ => 0))
+    else
+      let o := tupleCheck ev value
+      let r := showIntList ((List.range 9).map (fun k => net o.evs (k + 1)))
+      match o.result with
+      | some (some l) => "new [" ++ ",".intercalate (l.map toString) ++ "] r=" ++ r
+      | some none => "same r=" ++ r
+      | none => "err " ++ (match o.exc with | some e => e.name | none => "TraitError") ++ " r=" ++ r
+
 def handle (line : String) : String :=
   match (clean line).splitOn "|" with
   | ["P", decls, hist, copies] => handleP decls hist copies
   | ["T", ops] => handleT ops
   | ["R", cfg, ops] => handleR cfg ops
+  | ["U", behs, items] => handleU behs items
+  | ["U", behs, items, _] => handleU behs items
   | _ => "bad-case"
 
 end TraitsVerif.Driver.Persist
